@@ -4,6 +4,7 @@ import (
 	"fmt"
 
 	"github.com/llir/ll/ast"
+	"github.com/llir/llvm/ir"
 	"github.com/llir/llvm/ir/types"
 	"github.com/llir/llvm/ir/value"
 	"github.com/pkg/errors"
@@ -20,6 +21,11 @@ func (fgen *funcGen) irValue(typ types.Type, old ast.Value) (value.Value, error)
 		v, ok := fgen.gen.new.globals[ident]
 		if !ok {
 			return nil, errors.Errorf("unable to locate global identifier %q", ident.Ident())
+		}
+		// The type written in front of a global variable is the type of the
+		// global variable (see irConstant).
+		if g, ok := v.(*ir.Global); ok && typ != nil && !typ.Equal(g.Type()) {
+			return nil, errors.Errorf("type mismatch of global identifier %q; defined with type %q but expected %q", ident.Ident(), g.Type(), typ)
 		}
 		return v, nil
 	case *ast.LocalIdent:
